@@ -91,6 +91,10 @@ PROPS['C09'] = dict(
         V('znx'), V('vec_znx_arith'), V('vec_znx_ring'), V('vec_znx_merge'), V('vec_znx_split'), V('vec_znx_big'), V('galois'),
         K('poulpy-cpu-ref', 'verif_kani', ['c09_mask_mod_i64', 'c09_mask_mod_usize', 'c03_mask_mod_u64'], cls='complete', timeout=600,
           functions=['leaf fact: p & (m-1) == p mod m for power-of-two m (imported by znx_rotate / znx_automorphism_ref / galois_element proofs)']),
+        K('poulpy-cpu-ref', 'verif_kani::c09_rings', ['c09_merge_rings__g2_n1_s21_r2'], cls='bounded', timeout=900,
+          bound='2 parts of ring degree 1 (2: thorough) with 2 and 1 limbs (1 and 2: thorough) merged into 2 (3) limbs, two columns; all limb values and the previous result contents symbolic',
+          functions=['vec_znx_merge_rings (index-level model; structure-independent complement of the Verus unit)']),
+        K('poulpy-cpu-ref', 'verif_kani::c09_rings', ['c09_merge_rings__g2_n1_s12_r3', 'c09_merge_rings__g2_n2_s21_r2'], cls='bounded', tier='thorough', timeout=1500, bound='as above'),
     ],
     trusted_base=VERUS_TRUST,
     assumptions=['no i64 overflow in limb-wise add/sub/negate (stated as preconditions; the debug profile would panic, the release profile wraps)',
@@ -119,14 +123,14 @@ PROPS['C08'] = dict(
     level_text='Kernel law: complete in all 64-bit values, lsh and carries for each radix constant (quick: 5 radices, thorough: 18 radices spread over 1..62). Limb loop: unbounded Verus proof that in-place normalisation preserves the torus value mod 1 and leaves every digit balanced.',
     level_note='The Verus theorem imports the kernel law as trait contracts (cross-engine chain); out-of-place/cross-radix normalisation and shifts are covered only by bounded harnesses (N=1, small radices, constant offsets) reported under bounded_checks; encode/decode (i64, i128, single coefficient) are covered by bounded harnesses: decode(encode(x)) == x mod 2^k, exact for |x| < 2^(k-2), digits balanced, encoded torus value == x*2^-k mod 1, other coefficients untouched; decode_vec_float is not covered.',
     units=kernel_units() + [V('vec_znx_normalize'),
-        K('poulpy-cpu-ref', 'verif_kani::c08_shift', ['c08_shift__b4_s2_k0', 'c08_shift__b4_s2_k5', 'c08_shift__b4_s2_k9'], cls='bounded', timeout=900,
-          bound='N=1, radix 4, size 2, shift amount constant; limbs un-normalised (|x| < 2^12)',
+        K('poulpy-cpu-ref', 'verif_kani::c08_shift', ['c08_shift__b4_s2_k0', 'c08_shift__b4_s2_k5', 'c08_shift__b4_s2_k9', 'c08_shift_trunc__b4_a2_r1_k0'], cls='bounded', timeout=900,
+          bound='N=1, radix 4, size 2 (c08_shift_trunc: 2 limbs into 1), shift amount constant; limbs un-normalised (|x| < 2^12)',
           functions=['vec_znx_lsh', 'vec_znx_rsh', 'vec_znx_lsh_assign', 'vec_znx_rsh_assign']),
         K('poulpy-cpu-ref', 'verif_kani::c08_norm', ['c08_normalize__b4_b4_s2_s2_offm5', 'c08_normalize__b4_b4_s2_s1_offm4', 'c08_normalize__b3_b4_s2_s2_off0', 'c08_normalize__b5_b4_s2_s2_offm2'],
           cls='bounded', timeout=900, bound='N=1, sizes <= 2, radices 3..5, signed offset constant; limbs un-normalised (|x| < 2^20), stale result contents',
           functions=['vec_znx_normalize (vec_znx_normalize_inter_base2k, vec_znx_normalize_cross_base2k)']),
         K('poulpy-cpu-ref', 'verif_kani::c08_shift', ['c08_shift__b4_s2_k1', 'c08_shift__b4_s2_k3', 'c08_shift__b4_s2_k4', 'c08_shift__b4_s2_k8', 'c08_shift__b4_s2_k13',
-          'c08_rsh_gap__b4_s2_k9', 'c08_rsh_gap__b4_s2_k13'], cls='bounded', tier='thorough', timeout=900, bound='as above'),
+          'c08_rsh_gap__b4_s2_k9', 'c08_rsh_gap__b4_s2_k13', 'c08_shift_trunc__b4_a2_r1_k3', 'c08_shift_trunc__b4_a2_r1_k4', 'c08_shift_trunc__b4_a2_r1_k6'], cls='bounded', tier='thorough', timeout=900, bound='as above'),
         K('poulpy-cpu-ref', 'verif_kani::c08_norm', ['c08_normalize__b4_b4_s2_s2_off0', 'c08_normalize__b4_b4_s2_s2_off3', 'c08_normalize__b4_b4_s1_s2_off4', 'c08_normalize__b4_b4_s2_s2_off9',
           'c08_normalize__b4_b3_s2_s2_off0', 'c08_normalize__b4_b5_s2_s1_off1', 'c08_normalize__b4_b4_s1_s1_offm9_gap', 'c08_normalize__b4_b4_s1_s1_offm5_gap'],
           cls='bounded', tier='thorough', timeout=900, bound='as above'),
@@ -173,7 +177,10 @@ PROPS['C17'] = dict(
            K('poulpy-cpu-ref', 'hal_defaults::scratch::verif_kani', ['c12_take_slice_aligned_contract', 'c12_take_slice_default_i64', 'c12_take_slice_default_i128'], cls='complete', timeout=600,
              functions=['take_slice_aligned (unsafe)', 'take_slice_default (unsafe cast)']),
            K('poulpy-hal', 'layouts::vec_znx::verif_kani', ['c17_vec_znx_accessors_layout'], cls='complete', timeout=900,
-             functions=['ZnxView::at / at_ptr / raw, ZnxViewMut::at_mut on VecZnx (unsafe from_raw_parts): the I-LAYOUT interface the Verus units trust'])],
+             functions=['ZnxView::at / at_ptr / raw, ZnxViewMut::at_mut on VecZnx (unsafe from_raw_parts): the I-LAYOUT interface the Verus units trust']),
+           K('poulpy-hal', 'layouts::vec_znx::verif_kani', ['c17_vec_znx_reallocate_limbs_invariant'], cls='bounded', timeout=1500,
+             bound='n, cols <= 2, limb counts <= 3 (all symbolic): alloc, set_size, reallocate_limbs (grow and shrink), set_size',
+             functions=['VecZnx::alloc / set_size / reallocate_limbs: size <= max_size and n*cols*max_size*8 <= data.len() after every step (what the unchecked accessors rely on); alloc_aligned with zero bytes (fix 2f36d33)'])],
     trusted_base=VERUS_TRUST,
     assumptions=['VecZnx::from_data is unchecked in the real API: wf() of every operand is a precondition'],
     remainder='unsafe accessors of the layouts, DFT/NTT/VMP kernels, AVX loads/stores, deserialised objects used afterwards',
